@@ -930,6 +930,9 @@ class Parser:
         if isinstance(exprnode, pycparser.c_ast.BinaryOp):
             left = self._parse_constant(exprnode.left)
             right = self._parse_constant(exprnode.right)
+            if exprnode.op in ('<<', '>>') and not (0 <= right <= 1024):
+                raise CDefError("shift count %d out of range in a constant "
+                                "expression" % (right,))
             if exprnode.op == '+':
                 return left + right
             elif exprnode.op == '-':
